@@ -545,7 +545,16 @@ Proof. vm_compute. repeat split; reflexivity. Qed.
    ================================================================ *)
 
 (* ---- decoding a flow file keeps the filter as written: every statement above
-        transfers verbatim to the flows as written ---- *)
+        transfers verbatim to the flows as written ----
+   DEFINITIONAL: [load_flows] is defined as [map (with_url decode_keep)] and
+   [decode_keep u := u]; the theorem unfolds that definition (the model's stage is
+   the identity) and says nothing about Filter.UnmarshalYAML.  That the Go loader
+   (GetFlows -> ReadStreamFlowConfig -> Filter.UnmarshalYAML) hands AddFlow the
+   filter as written is TESTED, not proved: suite 'loaded' writes flow files,
+   reads them back through the production loader and evaluates the outcome
+   through [run_case_loaded] = [run_case] after [load_flows].  The theorem is
+   kept because it is what lets C03_loaded_exact_lax / C03_loader_complete /
+   C03_loader_sound be read off the older statements. *)
 Theorem C03_loader_keeps_filter : forall ws, load_flows ws = ws.
 Proof. exact load_flows_id. Qed.
 Print Assumptions C03_loader_keeps_filter.
@@ -616,6 +625,59 @@ Proof.
   - destruct Hf as [<-|[]]. vm_compute in HM. discriminate HM.
 Qed.
 Print Assumptions C03_loader_lowercase_sound_refuted.
+
+(* ---- seed C03-10 as it is written: ToLower AND TrimSpace ----
+   [decode_lower] is the ToLower half of the seed's line
+   f.URL = strings.ToLower(strings.TrimSpace(f.URL)); [Loader.decode_canon] is the
+   whole line (TrimSpace over the ASCII white-space bytes).  Where no written URL
+   has surrounding blanks the two load the same flows, so the refutations above
+   ARE refutations of the seed; they are restated for [decode_canon] itself. *)
+Theorem C03_loader_canon_is_lowercase_without_blanks : forall ws,
+  Forall (fun f => trim_space (f_url f) = f_url f) ws ->
+  load_with decode_canon ws = load_with decode_lower ws.
+Proof. exact load_with_canon_lower. Qed.
+Print Assumptions C03_loader_canon_is_lowercase_without_blanks.
+
+Theorem C03_loader_canon_complete_refuted : ~ C03_loader_complete_for decode_canon.
+Proof.
+  intro H. specialize (H [U "a/B"] (GET "a/B") (U "a/B")).
+  assert (HF : In (f_id (U "a/B"))
+                  (map f_id (get_flow (tree_of (load_with decode_canon [U "a/B"])) (GET "a/B")))).
+  { apply H.
+    - vm_compute. reflexivity.
+    - vm_compute. reflexivity.
+    - left. reflexivity.
+    - vm_compute. reflexivity.
+    - apply qualifies_iff. vm_compute. reflexivity.
+    - vm_compute. reflexivity. }
+  vm_compute in HF. exact HF.
+Qed.
+Print Assumptions C03_loader_canon_complete_refuted.
+
+Theorem C03_loader_canon_sound_refuted : ~ C03_loader_sound_for decode_canon.
+Proof.
+  intro H. specialize (H [U "a/B"] (GET "a/b") (with_url decode_canon (U "a/B"))).
+  destruct H as [f [Hf [_ HM]]]; try reflexivity.
+  - vm_compute. left. reflexivity.
+  - destruct Hf as [<-|[]]. vm_compute in HM. discriminate HM.
+Qed.
+Print Assumptions C03_loader_canon_sound_refuted.
+
+(* the hypothesis of C03_loader_canon_is_lowercase_without_blanks holds for the
+   witness list; and the TrimSpace half on its own is visible too: a filter
+   written with a trailing blank ("a/b ": the last segment is the three bytes
+   'b' ' ') is, as written, not the resource a/b - the seed's decode makes it so *)
+Example C03_demo_surrounding_blanks :
+  Forall (fun f => trim_space (f_url f) = f_url f) [U "a/B"]
+  /\ decode_canon (bs "  Api.X.com/v2/Users ") = bs "api.x.com/v2/users"
+  /\ decode_lower (bs "  Api.X.com/v2/Users ") = bs "  api.x.com/v2/users "
+  /\ load_ok (load_flows [U "a/b "]) = true
+  /\ map f_id (get_flow (tree_of (load_flows [U "a/b "])) (GET "a/b")) = []
+  /\ map f_id (get_flow (tree_of (load_flows [U "a/b "])) (GET "a/b ")) = [0]
+  /\ map f_id (get_flow (tree_of (load_with decode_lower [U "a/b "])) (GET "a/b")) = []
+  /\ map f_id (get_flow (tree_of (load_with decode_canon [U "a/b "])) (GET "a/b")) = [0]
+  /\ map f_id (get_flow (tree_of (load_with decode_canon [U "a/b "])) (GET "a/b ")) = [].
+Proof. split; [repeat constructor|]. vm_compute. repeat split; reflexivity. Qed.
 
 (* two flows whose filters differ only in letter case are two different resources *)
 Example C03_demo_letter_case :
